@@ -272,7 +272,10 @@ Definition m_keep_end (e : Z) : Z := e + 1.                   (* keep_sep: lens 
 Definition m_pos_shift (v : Z) : Z := v - 1.                  (* VCF: val -= 1 for column 1 *)
 Definition m_pos_shift_col : Z := 1.
 Definition m_extra_start (e10 : Z) : Z := e10 + 1.            (* SAM: field_starts[:, -1] + field_lens[:, -1] + 1 *)
-Definition m_extra_len (ee st : Z) : Z := Z.max (ee - st - 1) 0.
+Definition m_extra_end0 (ee : Z) : Z := ee - 1.                 (* the line break *)
+Definition m_extra_probe (e : Z) : Z := Z.max (e - 1) 0.       (* data[np.maximum(ends - 1, 0)] *)
+Definition m_extra_end (e c : Z) : Z := e - (if c =? m_cr_byte then 1 else 0).   (* a CR before the line break is not part of the tags *)
+Definition m_extra_len (en st : Z) : Z := Z.max (en - st) 0.
 Definition m_line_len (k : Z) : Z := k + 1.                   (* has_field_mask: len(name) + 1 *)
 Definition m_ignored (s k size : Z) : bool := s + m_line_len k >=? size.
 Definition m_flag_len_match (l k : Z) : bool := l =? k.        (* has_field_name: only items exactly as long as the key are compared *)
@@ -322,7 +325,7 @@ Fixpoint split_by (lens : list Z) (l : list Z) : list (list Z) :=
   | n :: r => firstn (Z.to_nat n) l :: split_by r (skipn (Z.to_nat n) l)
   end.
 (* SAMBuffer: rows have different numbers of delimiters; the first 11 fields form the table, the rest of the
-   line is one more field.  The CR adjustment calls .copy() on a RaggedArray, which does not exist. *)
+   line is one more field. *)
 Definition sam_table (chunk : list Z) : option table :=
   let delims := delim_positions 9 chunk in
   let ee := nl_indices chunk delims in
@@ -336,23 +339,37 @@ Definition sam_table (chunk : list Z) : option table :=
       let data := firstn (Z.to_nat size) chunk in
       let s := split_by counts (map (Z.add 1) (removelast delims')) in
       let e := split_by counts (tl delims') in
-      let e0l := lastz (hd [] e) in
-      if negb ((len data =? 0) || (e0l =? 0)) && (nthZ data (e0l - 1) =? 13) then None     (* AttributeError *)
-      else if forallb (fun r => 11 <=? len r) s then
-        Some {| t_data := data; t_starts := map (firstn 11) s; t_ends := map (firstn 11) e;
-                t_eends := map (fun r => lastz r + 1) e |}
+      (* /repo 6bbd290: SAMBuffer._modify_for_carriage_return on the ragged field ends — decided from the first row,
+         the last end of every row moves before a CR; entry_ends are taken before that *)
+      let e' := cr_adjust data e in
+      if forallb (fun r => 11 <=? len r) s then
+        Some {| t_data := data; t_starts := map (firstn 11) s; t_ends := map (firstn 11) e';
+                t_eends := map (fun r => m_entry_end (lastz r)) e |}
       else None
   end.
 
 Fixpoint find_index (p : Z -> bool) (i : Z) (l : list Z) : option Z :=
   match l with [] => None | x :: r => if p x then Some i else find_index p (i + 1) r end.
+(* >>> proposed repairs of the two open findings; the model follows /repo HEAD (both false).
+   after notes/C02.fix-4.diff is applied: ic_cr_adjusts := true   (GFF3 / wig: the CR is removed from the last column)
+   after notes/C02.fix-5.diff is applied: ic_comment_tabs_ignored := true   (a TAB inside a comment line is no delimiter) <<< *)
+Definition ic_cr_adjusts : bool := false.
+Definition ic_comment_tabs_ignored : bool := false.
+Fixpoint ic_scan (i : Z) (at_start in_comment : bool) (l : list Z) : list Z :=
+  match l with
+  | [] => []
+  | c :: r => let inc := if at_start then c =? 35 else in_comment in
+              (if (c =? 10) || ((c =? 9) && negb inc) then [i] else []) ++ ic_scan (i + 1) (c =? 10) inc r
+  end.
+Definition ic_delims (data : list Z) : list Z :=
+  if ic_comment_tabs_ignored then ic_scan 0 true false data else delim_positions 9 data.
 (* DelimitedBufferWithInernalComments: delimiters that open / close a comment line are deleted *)
 Definition ic_table (chunk : list Z) : option table :=
   match rev (positions 10 chunk) with
   | [] => None
   | lastnl :: _ =>
       let data := firstn (Z.to_nat (lastnl + 1)) chunk in
-      let delims := delim_positions 9 data in
+      let delims := ic_delims data in
       let cm := flatnonzero (map (fun d => (nthZ data d =? 10) && (nthZ data (d + 1) =? 35)) (removelast delims)) in
       let sd := removelast (np_delete delims cm) in
       let ed := np_delete delims (map (Z.add 1) cm) in
@@ -362,7 +379,8 @@ Definition ic_table (chunk : list Z) : option table :=
       | None => None
       | Some i =>
           match reshape (i + 1) (map (Z.add 1) sd'), reshape (i + 1) ed' with
-          | Some s, Some e => Some {| t_data := data; t_starts := s; t_ends := e; t_eends := map (fun r => lastz r + 1) e |}
+          | Some s, Some e => Some {| t_data := data; t_starts := s; t_ends := if ic_cr_adjusts then cr_adjust data e else e;
+                                      t_eends := map (fun r => lastz r + 1) e |}
           | _, _ => None
           end
       end
@@ -420,9 +438,12 @@ Definition digit_matrix (data : list Z) (bs : list (Z * Z)) : list (list Z) :=
   map (fun se => map (fun j => if j <? m_mida_n_fill (fst se) (snd se) mx then 48 else py_get data (m_mida_index (snd se) mx j)) (arange mx)) bs.
 
 (* str_to_int on ragged text: a flagged first byte is overwritten with '0' *)
-Definition str_to_int_flag (neg pos : bool) (txt : list Z) : option Z :=
+Definition str_to_int_core (neg pos : bool) (txt : list Z) : option Z :=
   let txt' := if neg || pos then match txt with [] => [] | _ :: r => 48 :: r end else txt in
   option_map (fun ds => (if neg then -1 else 1) * dot_pow ds) (digits_of txt').
+Definition str_to_int_flag (neg pos : bool) (txt : list Z) : option Z :=
+  (* /repo 4a1f4c0, 0fc128f: an empty text, and a sign without digits, are not numbers *)
+  if (len txt =? 0) || ((neg || pos) && (len txt =? 1)) then None else str_to_int_core neg pos txt.
 Definition str_to_int_auto (txt : list Z) : option Z := str_to_int_flag (hd0 txt =? 45) (hd0 txt =? 43) txt.
 
 (* TextBufferExtractor.get_digit_array + str_to_int *)
@@ -445,19 +466,25 @@ Definition parse_with_missing_fixed {A} (missing : A) (parser : list Z -> option
    @parse_with_missing_fixed A <<< *)
 Definition parse_with_missing_cur {A} := @parse_with_missing_fixed A.
 
+Definition count_eq (c : Z) (l : list Z) : Z := len (filter (Z.eqb c) l).
 (* strops._decimal_str_to_float / _scientific_str_to_float, as exact rationals *)
 Definition dec_to_rat (txt : list Z) : option (Z * Z) :=
   match txt with
   | [] => None
   | _ =>
     let neg := hd0 txt =? 45 in
-    let t := if neg then 48 :: tl txt else txt in
+    let signed := neg || (hd0 txt =? 43) in
+    let t := if signed then 48 :: tl txt else txt in
+    let n_dots := count_eq 46 txt in
+    (* /repo 4a1f4c0: more than one decimal point, or no digit at all, is not a number *)
+    if (1 <? n_dots) || (len txt - n_dots - (if signed then 1 else 0) <=? 0) then None else
     let '(ip, fp) := split_first 46 t in
     let fp := match fp with Some x => x | None => [] end in
     option_map (fun ds => ((if neg then -1 else 1) * dot_pow ds, 10 ^ len fp)) (digits_of (ip ++ fp))
   end.
 Definition str_to_float1 (txt : list Z) : option (Z * Z) :=
   if existsb (Z.eqb 101) txt then
+    if negb (count_eq 101 txt =? 1) then None else          (* /repo 0fc128f: exactly one exponent *)
     let '(m, e) := split_first 101 txt in
     match dec_to_rat m, str_to_int_auto (match e with Some x => x | None => [] end) with
     | Some (a, b), Some p => Some (if 0 <=? p then (a * 10 ^ p, b) else (a, b * 10 ^ (- p)))
@@ -472,7 +499,6 @@ Definition strand_sym (c : Z) : option Z :=
 
 (* DelimitedBuffer._parse_split_fields: the byte after each field becomes ',', the whole column is split at
    once, empty strings are dropped, and the row lengths are the numbers of ',' per row *)
-Definition count_eq (c : Z) (l : list Z) : Z := len (filter (Z.eqb c) l).
 Definition parse_split {A} (parser : list Z -> option A) (rows_sep : list (list Z)) : option (list (list A)) :=
   let rows' := map (fun r => match r with [] => [] | _ => set_last r 44 end) rows_sep in
   let flat := removelast (concat rows') in
@@ -493,8 +519,10 @@ Definition parse_split_fixed {A} (parser : list Z -> option A) (rows_sep : list 
 Definition parse_split_cur {A} := @parse_split_fixed A.
 
 (* a SequenceID column is moved into a fixed-width matrix; width 0 (every text empty) cannot be reshaped *)
-Definition sid_col (txts : list (list Z)) : colres :=
+Definition sid_col_pinned (txts : list (list Z)) : colres :=
   if forallb (fun t => len t =? 0) txts then ColErr else Col (map CBytes txts).
+(* since /repo 58b75b9 (reshape((lens.size, max_chars))) a column of only-empty identifiers is read as empty strings *)
+Definition sid_col (txts : list (list Z)) : colres := Col (map CBytes txts).
 Definition opt_col {A} (f : A -> cell) (o : option (list A)) : colres :=
   match o with Some l => Col (map f l) | None => ColErr end.
 
@@ -511,7 +539,10 @@ Definition typed_col (t : table) (j : Z) (ty : ctype) : colres :=
   | TQual => Col (map (fun x => CInts (map (fun c => c - 33) x)) (texts t j))
   | TIntList => opt_col CInts (parse_split_cur str_to_int_auto (texts_sep t j))
   | TRest =>   (* SAMBufferExctractor._get_extra_field *)
-      Col (map (fun '(se, ee) => let st := m_extra_start (snd se) in CBytes (slice st (st + m_extra_len ee st) data))
+      Col (map (fun '(se, ee) => let st := m_extra_start (snd se) in
+                                 let e0 := m_extra_end0 ee in
+                                 let en := m_extra_end e0 (nthZ data (m_extra_probe e0)) in
+                                 CBytes (slice st (st + m_extra_len en st) data))
                (combine (bounds t 10) (t_eends t)))
   end.
 
